@@ -12,6 +12,7 @@ PID = "C03"
 ANCHORS = ["scores.py:Scores._invert_increasing_function", "scores.py:Scores._threshold_at_ratio",
            "scores.py:Scores.threshold_at_tpr", "scores.py:Scores.threshold_at_fnr", "scores.py:Scores.threshold_at_tnr",
            "scores.py:Scores.threshold_at_fpr", "scores.py:Scores.threshold_at_topr", "scores.py:Scores.threshold_at_tonr"]
+RAISES_ARE_VIOLATIONS = True
 DECIDING = {"M-thr": 20000}
 QUICK_EXTRA = []
 THOROUGH_EXTRA = ["WX", "W2", "W3"]
